@@ -437,6 +437,15 @@ func (rd *Renderer) routePath(rt Route) string {
 	case "qph":
 		setEnv("HKV_ROUTE_"+strings.ToUpper(rt.Path), base)
 		return `"{$HKV_ROUTE_` + strings.ToUpper(rt.Path) + `}"`
+	case "qhash":
+		return `"` + base + `#frag"`
+	case "qesc":
+		return `"` + base + `\"q\\"`
+	case "qbad":
+		if rd.rng.Intn(3) == 0 {
+			return `""`
+		}
+		return `"hooks/` + rt.Path + `"`
 	}
 	panic("unknown path spelling " + rt.Pq)
 }
